@@ -107,7 +107,7 @@ func encodeDecodeMatrix(r *core.Run, w *wireCtx) {
 		k := core.TypeStr(gpk.TypesInfo.TypeOf(cc.List[0]))
 		k = k[strings.LastIndex(k, ".")+1:]
 		ki := &kindInfo{goTypes: map[string]bool{}}
-		ast.Inspect(cc, func(n ast.Node) bool {
+		core.InspectTree(gpk, cc, func(n ast.Node) bool {
 			ret, ok := n.(*ast.ReturnStmt)
 			if ok && len(ret.Results) == 2 && core.IsNilIdent(gpk.TypesInfo, ret.Results[1]) {
 				ki.goTypes[core.TypeStr(gpk.TypesInfo.TypeOf(ret.Results[0]))] = true
@@ -124,7 +124,7 @@ func encodeDecodeMatrix(r *core.Run, w *wireCtx) {
 		}
 		k := core.TypeStr(dpk.TypesInfo.TypeOf(cc.List[0]))
 		k = k[strings.LastIndex(k, ".")+1:]
-		accepted[k] = acceptedTypes(dpk.TypesInfo, cc)
+		accepted[k] = acceptedTypes(dpk, cc)
 	}
 	var ks []string
 	for k := range kinds {
